@@ -32,6 +32,9 @@ def run_demo(tag, meta, demo):
         return 99, b.stderr[-600:]
     interp = "python3" if demo.endswith(".py") else "bash"
     r = sh(f"{interp} {demo} {WT}/target/debug/ast-grep", cwd=WT)
+    if r.returncode == 2 and ("not found" in r.stdout + r.stderr or "missing" in r.stdout + r.stderr):
+        # some demonstrations take the checkout directory instead of the binary
+        r = sh(f"{interp} {demo} {WT}", cwd=WT)
     return r.returncode, (r.stdout + r.stderr)[-600:]
 for tag in sys.argv[1:]:
     out = f"/tmp/seed_{tag}_out"
